@@ -18,6 +18,17 @@ type Conn struct {
 	Pairs   [][2]string `json:"pairs"`
 	Surplus [][2]string `json:"surplus,omitempty"` // pairs after the terminator
 	Pass    string      `json:"pass,omitempty"`
+	// PID, Key: content of the CancelRequest (kinds cancel, ssl-cancel, tls-cancel); 0 = 1234 / 5678
+	PID uint32 `json:"pid,omitempty"`
+	Key uint32 `json:"key,omitempty"`
+}
+
+func (c Conn) cancel() []byte {
+	pid, key := c.PID, c.Key
+	if pid == 0 && key == 0 {
+		pid, key = 1234, 5678
+	}
+	return pgwire.CancelRequest(pid, key)
 }
 
 type Case struct {
@@ -30,6 +41,7 @@ type Case struct {
 	Auth       bool              `json:"auth,omitempty"`
 	Conns      []Conn            `json:"conns"`
 	Parallel   bool              `json:"parallel,omitempty"`
+	TLS        bool              `json:"tls,omitempty"` // certificates configured (connection kind tls-cancel)
 	OptSeed    int               `json:"opt_seed,omitempty"`
 }
 
@@ -69,6 +81,26 @@ type connResult struct {
 }
 
 func runConn(env *script.Env, c Case, cc Conn) (r connResult) {
+	if cc.Kind == "tls-cancel" {
+		// the server has certificates: SSLRequest, 'S', TLS handshake, then the CancelRequest inside TLS
+		ts, err := env.NewTLSSess()
+		if err != nil {
+			return connResult{sig: "C12/tls/negotiation", msg: "TLS negotiation failed: " + err.Error()}
+		}
+		st := ts.Send(cc.cancel())
+		switch {
+		case st.State == memnet.Timeout:
+			return connResult{inconclusive: "cancel inside TLS: guard"}
+		case len(st.Raw) != 0:
+			return connResult{sig: "C12/cancel/reply", msg: fmt.Sprintf("connection %d: CancelRequest after the TLS upgrade answered with %v", ts.C.ID, pgwire.Briefs(st.Msgs))}
+		case st.State != memnet.Closed:
+			return connResult{sig: "C12/cancel/not-closed", msg: fmt.Sprintf("connection %d: not closed after a CancelRequest inside TLS", ts.C.ID)}
+		}
+		for _, ev := range env.TraceOf(ts.C.ID) {
+			return connResult{sig: "C12/cancel/callback", msg: fmt.Sprintf("connection %d: CancelRequest inside TLS: callback %s ran", ts.C.ID, ev.K)}
+		}
+		return
+	}
 	s := env.NewSess()
 	fail := func(sig, f string, a ...any) connResult {
 		return connResult{sig: sig, msg: fmt.Sprintf("connection %d (%s): ", s.C.ID, cc.Kind) + fmt.Sprintf(f, a...)}
@@ -85,7 +117,7 @@ func runConn(env *script.Env, c Case, cc Conn) (r connResult) {
 		if cc.Kind == "ssl-cancel" {
 			b = pgwire.SSLRequest()
 		}
-		b = append(b, pgwire.CancelRequest(1234, 5678)...)
+		b = append(b, cc.cancel()...)
 		s.C.Send(b)
 		st := s.C.WaitIdle(script.Guard)
 		if st == memnet.Timeout {
@@ -286,8 +318,9 @@ func Run(c Case) core.Result {
 			res.Labels = append(res.Labels, "surplus-pairs")
 			res.NonTrivial = true
 		}
-		if cc.Kind == "ssl-cancel" {
+		if cc.Kind == "ssl-cancel" || cc.Kind == "tls-cancel" {
 			res.NonTrivial = true
+			res.Labels = append(res.Labels, cc.Kind)
 		}
 	}
 	if c.Parallel && len(users) >= 2 && len(c.Params) > 0 {
@@ -297,6 +330,9 @@ func Run(c Case) core.Result {
 	res.Labels = append(res.Labels, fmt.Sprintf("connections=%d", len(c.Conns)))
 
 	cfg := script.Config{Params: c.Params, HasParams: c.HasParams, Earlier: c.Earlier, HasEarlier: c.HasEarlier && c.HasParams, Version: c.Version, SetLimit: true, Limit: 1 << 14, OptSeed: c.OptSeed}
+	if c.TLS {
+		cfg.TLS = "cert"
+	}
 	cfg.Table.Q = map[string]script.Outcome{q: {Stmts: []script.Stmt{{Ops: []script.Op{{K: "complete", Tag: "OK"}}}}}}
 	if c.Auth {
 		cfg.Auth = &script.AuthSpec{User: "*", Pass: "pw"}
